@@ -285,6 +285,30 @@ func checkJSONBytes(c *Ctx, x []byte) *Violation {
 func checkReaders(c *Ctx, codec int, x []byte, sch *ReadSched) *Violation {
 	c.Eval()
 	tag := codecNames[codec]
+	// what the []byte decoder makes of the same bytes: with a fault-free delivery the
+	// reader forms must agree with it on the first document
+	faultFree := sch.ErrAt < 0 && (sch.CutAt < 0 || sch.CutAt >= len(x))
+	var refMap interface{}
+	refAcc, refJudged := false, false
+	if faultFree {
+		switch codec {
+		case 0:
+			refAcc, refJudged = refXMLAccepts(x), true
+			if refAcc {
+				m, e := mxj.NewMapXml(x)
+				refAcc, refMap = e == nil, asIface(m)
+				refJudged = e == nil
+			}
+		case 2:
+			t := bytes.TrimLeft(x, " \t\r\n")
+			if len(t) > 0 && t[0] == '{' && refJSONAccepts(x) {
+				m, e := mxj.NewMapJson(x)
+				if e == nil {
+					refAcc, refJudged, refMap = true, true, asIface(m)
+				}
+			}
+		}
+	}
 	// plain + raw forms: call until an error comes back (bounded by len+3 calls)
 	for form := 0; form < 2; form++ {
 		r := NewSimReader(c, "rd", x, sch)
@@ -315,6 +339,15 @@ func checkReaders(c *Ctx, codec int, x []byte, sch *ReadSched) *Violation {
 			m = asIface(m)
 			c.Event("%s/%s call %d -> %v %x", tag, formNames[form], call, err, uint64(Digest(m)))
 			c.C["probe.reader_calls"]++
+			if call == 0 && refJudged {
+				c.C["probe.reader_vs_bytes_checked"]++
+				if refAcc && (err != nil || Canon(m) != Canon(refMap)) {
+					return &Violation{"C15.reader-rejects-valid/" + tag + "/" + formNames[form], fmt.Sprintf("the []byte decoder accepts the first document of %q but the reader form under schedule [%s] returned err=%v map=%s", clip(string(x), 160), sch.String(), err, clip(Canon(m), 120))}
+				}
+				if !refAcc && err == nil {
+					return &Violation{"C15.reader-accepts-invalid/" + tag + "/" + formNames[form], fmt.Sprintf("encoding/xml rejects the first document of %q but the reader form returned no error (map=%s)", clip(string(x), 160), clip(Canon(m), 120))}
+				}
+			}
 			if err != nil {
 				if m != nil && err != mxj.NoRoot && codec != 2 {
 					return &Violation{"C15.reader-partial-map/" + tag + "/" + formNames[form], fmt.Sprintf("reader form returned err=%v together with a Map %s", err, clip(Canon(m), 200))}
